@@ -43,6 +43,13 @@ def collect(ctx, q):
         sc = L.scen_from_cex(r, "LifecycleAsCodeWriting.cfg", "deviation:WritingOutlivesRun:" + r.violated)
         sc["reqkinds"] = ["writecontrol", "trigger"]
         scens.extend([sc] * 3)
+    # deviation: a Stop whose decision and action are two steps. There is no gate inside the critical section of the code
+    # (parking a goroutine there would park everybody else too), so the counterexample is not replayed; the hook vheld
+    # checks on every recorded Stop / Start that the code acts on the state it read while still holding the lock.
+    r = vlib.run_tlc(ctx, "Lifecycle", "LifecycleStopTorn.cfg", workers=8, timeout=900)
+    if not r.violated:
+        raise vlib.MachineryError("deviation StopCheckThenAct no longer violates the model")
+    ctx.notes["deviation_torn_stop"] = {"violates": r.violated, "bound_to_code_by": "hook vheld -> predicates C10_stop_atomic / C10_start_atomic"}
     scens += L.witness_scens(ctx, repeat=6 if q else 20)
     n = 40 if q else 400
     scens += L.sim_scens(ctx, "LifecycleSim.cfg", n)
